@@ -625,6 +625,12 @@ func (w *World) onYield(point string, objs ...any) {
 		t0 := rtNow()
 		for w.lined.Load() < int64(w.plan.BarrierN) && w.burstGen.Load() == gen && rtNow()-t0 < 200000 {
 		}
+		if d := w.plan.BarrierStaggerNs[point+"@"+actor]; d > 0 {
+			// this contender starts a little after the others (scans the alignments of two short critical sections)
+			t1 := rtNow()
+			for rtNow()-t1 < int64(d) {
+			}
+		}
 	}
 }
 
@@ -1109,7 +1115,7 @@ var customRe = regexp.MustCompile(`(?s)CUSTOM(\d+)\[(.*?)\]MOTSUC`)
 
 func (w *World) sendKV(rq Req) KV {
 	return KV{"r": rq.ID, "svc": rq.Svc, "host": rq.Host, "path": rq.Path, "kind": rq.Kind, "hold": rq.HoldMs,
-		"hc": rq.HC, "cookie": rq.Cookie, "tls": rq.TLS, "abort": rq.AbortMs, "method": dfltS(rq.Method, "GET"), "sync": rq.Sync}
+		"hc": rq.HC, "chunked": rq.Chunked, "cookie": rq.Cookie, "tls": rq.TLS, "abort": rq.AbortMs, "method": dfltS(rq.Method, "GET"), "sync": rq.Sync}
 }
 
 func dfltS(s, d string) string {
@@ -1139,6 +1145,9 @@ func (w *World) doRequest(rq Req) {
 	req.Header.Set("X-Verif-Rid", rq.ID)
 	req.Header.Set("X-Verif-Kind", rq.Kind)
 	req.Header.Set("X-Verif-Hold", strconv.Itoa(rq.HoldMs))
+	if rq.Chunked {
+		req.Header.Set("X-Verif-Chunked", "1")
+	}
 	if rq.Cookie != "" {
 		req.Header.Set("Cookie", "kamal-rollout="+rq.Cookie)
 	}
